@@ -65,11 +65,7 @@ pub fn check(c: &Case, obs: &mut Obs) -> Result<Option<Frame>, Fail> {
     let n = built.size();
     let m = c.cfg.margin_eff();
     let s_total = (n + 2 * m) as f64;
-    let svg = catch(|| {
-        let mut b = SvgBuilder::default();
-        c.cfg.apply(&mut b);
-        b.to_str(&built.qr)
-    })
+    let svg = catch(|| c.cfg.svg_string(&built.qr))
     .map_err(|p| Fail { sig: panic_sig(&p), msg: format!("SvgBuilder panicked: {} ({})", p, to_json(c)) })?;
     let f = frame_of(&svg)?;
     let cfg = &c.cfg;
@@ -200,8 +196,8 @@ pub fn run(e: &'static Engine) {
     let mut jobs: Vec<Job> = Vec::new();
     for _ in 0..shards {
         jobs.push(Box::new(move |jc: &mut JobCtx| {
-            let strat = (prop_oneof![3 => 1usize..=10, 1 => 1usize..=40], prop_oneof![Just(None), (0usize..=16).prop_map(Some)], prop_oneof![Just(None), (0usize..3).prop_map(Some)], any::<[bool; 3]>())
-                .prop_flat_map(|(v, margin, shape, present)| {
+            let strat = (prop_oneof![3 => 1usize..=10, 1 => 1usize..=40], prop_oneof![Just(None), (0usize..=16).prop_map(Some)], prop_oneof![Just(None), (0usize..3).prop_map(Some)], any::<[bool; 3]>(), warm_strategy())
+                .prop_flat_map(|(v, margin, shape, present, warm)| {
                     let n = size(v) as f64;
                     let s_total = n + 2.0 * margin.unwrap_or(4) as f64;
                     (
@@ -211,7 +207,7 @@ pub fn run(e: &'static Engine) {
                     )
                         .prop_map(move |(size_o, gap, pos)| Case {
                             version: v,
-                            cfg: SvgCfg { margin, image: Some("logo.png".into()), image_bg_shape: shape, image_size: size_o, image_gap: gap, image_position: pos, ..SvgCfg::default() },
+                            cfg: SvgCfg { margin, image: Some("logo.png".into()), image_bg_shape: shape, image_size: size_o, image_gap: gap, image_position: pos, warm, ..SvgCfg::default() },
                         })
                 });
             jc.run_prop(1 << 20, &strat, total / shards, to_json, |c, o| {
